@@ -8,11 +8,18 @@ package assets
 // invoked by the configured gateway contract; otherwise the call fails and nothing changes.
 
 //@ func (Precompile).DepositOrWithdraw
-//@   requires contract != nil && !gatewayOK(ctx, contract.CallerAddress)
-//@   flag prune
-//@   ensures[C10.pa.dow.gateway] err != nil && state(ctx) == old(state(ctx))
+//@   names ctx, origin, contract, stateDB, method, args
+//@   requires contract != nil
+//@   flag pure=DepositWithdrawParams,Pack,Encode,GetStakerSpecifiedAssetInfo,BigInt
+//@   flag havoc=UpdateNSTValidatorListForStaker
+//@   modifies state(ctx), trace
+//@   ensures[C10.pa.dow.gateway] old(!gatewayOK(ctx, contract.CallerAddress)) ==> err != nil && state(ctx) == old(state(ctx))
+// C09 (a deposit or withdrawal that the ledger refuses leaves no trace): the oracle's per-staker validator record of a
+// native-restaking asset is touched only after the assets ledger has accepted the operation.
+//@   before[C09.pa.dow.order] UpdateNSTValidatorListForStaker requires defined(res_PerformDepositOrWithdraw_0) && res_PerformDepositOrWithdraw_0 == nil
 
 //@ func (Precompile).RegisterOrUpdateClientChain
+//@   names ctx, contract, method, args
 //@   requires contract != nil && !gatewayOK(ctx, contract.CallerAddress)
 //@   flag prune
 //@   ensures[C10.pa.rcc.gateway] err != nil && state(ctx) == old(state(ctx))
@@ -20,6 +27,7 @@ package assets
 // RegisterToken additionally (C09): whatever makes it fail - also for the gateway itself - it leaves no trace: the oracle
 // token and feeder are registered only if the staking asset can be registered as well.
 //@ func (Precompile).RegisterToken
+//@   names ctx, contract, method, args
 //@   requires contract != nil
 //@   flag pure=TokenFromInputs,Pack
 //@   modifies state(ctx)
@@ -27,6 +35,7 @@ package assets
 //@   ensures[C09.pa.rt.atomic]  err != nil && !defined(res_Pack_0) ==> state(ctx) == old(state(ctx))
 
 //@ func (Precompile).UpdateToken
+//@   names ctx, contract, method, args
 //@   requires contract != nil && !gatewayOK(ctx, contract.CallerAddress)
 //@   flag prune
 //@   ensures[C10.pa.ut.gateway] err != nil && state(ctx) == old(state(ctx))
